@@ -455,10 +455,90 @@ Theorem C19_dot_inner_product : forall r c x y, wfx r c x -> mrange x -> mrange 
 Proof. exact inner_product_correct. Qed.
 Print Assumptions C19_dot_inner_product.
 
-(* ---------------------------------------------------------------- not proved (tie + search only)
-   the put loop as a whole (its index handling, value selection and single write are proved above),
-   dot's dispatch between its branches and the in-place operators (op followed by copy) are modelled in Lib/Matrix.v and compared with the real class and with
-   nested-list arithmetic on every run, but have no theorem. *)
+(* ---------------------------------------------------------------- put as a whole, dot dispatch, in-place, stacking *)
+(* m.put(ind, v, mode): fails exactly when some index does not resolve under the mode (only possible
+   for mode raise, see C19_put_index_modes); otherwise shape/bits/max_bits are kept and every element holds
+   the LAST value written to its flat position (`put_last`: the writes in the order of ind, value k =
+   v[k] or the last element of v when v is shorter), truncated to bits, else its old value.  A row-vector
+   Matrix of values behaves like the list of its elements (C19_put_matrix_value_as_list). *)
+Theorem C19_put_loop : forall r c a ind v mode, wfx r c a -> v <> [] ->
+  let count := Z.of_nat (r * c) in
+  (mput_list a ind v mode = None <-> exists ix, In ix ind /\ put_ix count mode ix = None) /\
+  (forall res, mput_list a ind v mode = Some res ->
+     wfx r c res /\ bits res = bits a /\ maxb res = maxb a /\
+     forall i j, (i < r)%nat -> (j < c)%nat ->
+       el res i j = put_last count mode (put_val_list v) (bits a) (Z.of_nat (i * c + j)) ind 0 (el a i j)).
+Proof. exact put_list_spec. Qed.
+Print Assumptions C19_put_loop.
+
+(* dot(first, second) for EVERY pair of shapes: 1x1 operand -> scalar product (either side); two vectors
+   (row or column, any combination) -> inner product if their lengths agree, else an error; otherwise
+   matrix product if columns(first) = rows(second), else an error *)
+Theorem C19_dot_dispatch : forall r1 c1 r2 c2 a b, wfx r1 c1 a -> wfx r2 c2 b ->
+  mdot a b =
+    if ((r1 =? 1) && (c1 =? 1))%nat then
+      if ((r2 =? 1) && (c2 =? 1))%nat
+      then Some (MkMx (2 * Z.max (bits a) (bits b)) (maxb a) [[el a 0 0 * el b 0 0]])
+      else Some (mscal b (bits a) (el a 0 0))
+    else if ((r2 =? 1) && (c2 =? 1))%nat then Some (mscal a (bits b) (el b 0 0))
+    else if (((r1 =? 1) || (c1 =? 1)) && ((r2 =? 1) || (c2 =? 1)))%nat then
+      if (r1 * c1 =? r2 * c2)%nat then Some (inner_product a (orient a b)) else None
+    else if (c1 =? r2)%nat then Some (mmatmul a b) else None.
+Proof. exact dot_dispatch. Qed.
+Print Assumptions C19_dot_dispatch.
+
+(* ... and the vector.vector value in terms of the two readings, whatever the orientations *)
+Theorem C19_dot_vectors : forall r1 c1 r2 c2 a b, wfx r1 c1 a -> wfx r2 c2 b ->
+  mrange a -> mrange b -> 0 <= maxb a -> bits b <= maxb b ->
+  (r1 = 1 \/ c1 = 1)%nat -> (r2 = 1 \/ c2 = 1)%nat -> (r1 * c1 <> 1)%nat -> (r2 * c2 <> 1)%nat ->
+  (r1 * c1 = r2 * c2)%nat ->
+  let ip := sumZ (map (fun k => nth k (flat (dat a)) 0 * nth k (flat (dat b)) 0) (seq 0 (r1 * c1))) in
+  exists res, mdot a b = Some res /\ el res 0 0 = ip mod 2 ^ bits res /\
+              (bits a + bits b <= maxb a -> el res 0 0 = ip).
+Proof. exact dot_vectors. Qed.
+Print Assumptions C19_dot_vectors.
+
+(* a += b, a -= b, a *= b, a @= b, a **= n: the operator's result re-read through to_wirevector (copy):
+   same elements, same bits, and the max_bits of a *)
+Theorem C19_inplace_operators :
+  (forall r c a b, wfx r c a -> 0 <= bits a -> 0 <= bits b -> 0 <= maxb a ->
+     (dat (miadd a b) = dat (madd a b) /\ bits (miadd a b) = bits (madd a b) /\ maxb (miadd a b) = maxb a) /\
+     (dat (misub a b) = dat (msub a b) /\ bits (misub a b) = bits (msub a b) /\ maxb (misub a b) = maxb a) /\
+     (dat (mimul a b) = dat (mmul a b) /\ bits (mimul a b) = bits (mmul a b) /\ maxb (mimul a b) = maxb a)) /\
+  (forall r K c a b, wfx r K a -> wfx K c b -> 0 <= maxb a -> 0 <= bits a + bits b ->
+     dat (mimatmul a b) = dat (mmatmul a b) /\ bits (mimatmul a b) = bits (mmatmul a b) /\
+     maxb (mimatmul a b) = maxb a) /\
+  (forall r a n, wfx r r a -> mrange a -> 0 < bits a <= maxb a ->
+     dat (mipow a n) = dat (mpow a n) /\ bits (mipow a n) = bits (mpow a n) /\ maxb (mipow a n) = maxb a).
+Proof. exact (conj inplace_elementwise (conj inplace_matmul inplace_pow)). Qed.
+Print Assumptions C19_inplace_operators.
+
+(* hstack / vstack of ANY number n >= 1 of operands (stackable_h R m: R rows, elements in range,
+   0 <= bits <= max_bits): rows concatenated / appended, widest element width, no element changed *)
+Theorem C19_hstack_any : forall R ms i, ms <> [] -> (forall m, In m ms -> stackable_h R m) -> (i < R)%nat ->
+  exists res, mhstack ms = Some res /\ bits res = zmaxl (map bits ms) /\
+    nth i (dat res) [] = concat (map (fun m => nth i (dat m) []) ms).
+Proof. exact hstack_any. Qed.
+Print Assumptions C19_hstack_any.
+
+Theorem C19_vstack_any : forall C ms, ms <> [] -> (forall m, In m ms -> stackable_v C m) ->
+  exists res, mvstack ms = Some res /\ bits res = zmaxl (map bits ms) /\
+    dat res = concat (map dat ms).
+Proof. exact vstack_any. Qed.
+Print Assumptions C19_vstack_any.
+
+(* shape errors: no operand; operands whose row counts (hstack) / column counts (vstack) differ;
+   concatenate dispatches on axis 0 / 1 and rejects any other axis *)
+Theorem C19_stack_errors :
+  (mhstack [] = None /\
+   forall m1 m2 ms, forallb (fun x => Nat.eqb (rows_of x) (rows_of m1)) (m1 :: m2 :: ms) = false ->
+                    mhstack (m1 :: m2 :: ms) = None) /\
+  (mvstack [] = None /\
+   forall m1 m2 ms, forallb (fun x => Nat.eqb (cols_of x) (cols_of m1)) (m1 :: m2 :: ms) = false ->
+                    mvstack (m1 :: m2 :: ms) = None) /\
+  (forall ms ax, mconcatenate ms ax = if ax =? 0 then mhstack ms else if ax =? 1 then mvstack ms else None).
+Proof. exact (conj hstack_errors (conj vstack_errors concatenate_dispatch)). Qed.
+Print Assumptions C19_stack_errors.
 
 (* ---------------------------------------------------------------- non-vacuity *)
 Definition exA : Mx := MkMx 3 64 [[1; 2; 3]; [4; 5; 6]].
@@ -482,5 +562,14 @@ Example C19_example_ops :
   dat (msum exA Ax0 None) = [[5; 7; 1]] /\
   dat (margmax exB Ax1 None) = [[0; 0]] /\ dat (margmax exB AxNone None) = [[0]] /\
   matrix_wv_to_list (to_wv exA) 2 3 3 = dat exA /\
-  dat (mmatmul (MkMx 3 4 [[7]]) (MkMx 3 4 [[7]])) = [[1]].
+  dat (mmatmul (MkMx 3 4 [[7]]) (MkMx 3 4 [[7]])) = [[1]] /\
+  outxo (mput_list exA [0; -1; 7; 0] [9; 5] PWrap) = Some (3, [[5; 5; 3]; [4; 5; 5]], encode 3 [5; 5; 3; 4; 5; 5], 64) /\
+  mput_list exA [6] [1] PRaise = None /\
+  outxo (mdot (mtranspose (MkMx 2 64 [[1; 2; 3]])) (MkMx 3 64 [[4; 5; 6]])) = Some (7, [[32]], 32, 64) /\
+  mdot exA exB = None /\
+  outx (miadd exA exB) = outx (madd exA exB) /\
+  outxo (mhstack [exA; exB; exA]) =
+    Some (4, [[1; 2; 3; 15; 0; 9; 1; 2; 3]; [4; 5; 6; 7; 7; 1; 4; 5; 6]],
+          encode 4 [1; 2; 3; 15; 0; 9; 1; 2; 3; 4; 5; 6; 7; 7; 1; 4; 5; 6], 64) /\
+  mvstack [exA; exC] = None.
 Proof. vm_compute. repeat split; reflexivity. Qed.
